@@ -359,6 +359,16 @@ Definition default_pickle_section (s : section) : section :=
 Definition default_deepcopy_section (s : section) : section :=
   fold_left append (List.map copy_item (items s)) (empty_section (transforms s)).
 
+(* a LASFile as far as C17 needs it: its named header sections (LASFile has no __reduce__: its
+   __dict__, i.e. the dict of sections, is copied entry by entry) *)
+Definition lasfile := list (str * section).
+Definition copy_las (copy_sec : section -> section) (las : lasfile) : lasfile :=
+  List.map (fun p => (fst p, copy_sec (snd p))) las.
+
+(* a CurveItem's data is an array (CurveItem.__init__ turns None into an empty array) *)
+Definition item_ok (it : item) : bool :=
+  if is_curve it then negb (str_eqb (it_data it) none_data) else true.
+
 (* ---- operations of the C13 state machine ------------------------------------------------ *)
 Record item_args := mkArgs {
   a_curve : bool; a_mnem : str; a_unit : str; a_value : str; a_descr : str; a_data : str }.
